@@ -9,7 +9,7 @@ if [ -n "${MUT_REPO:-}" ]; then python3 -c "
 import sys; sys.path.insert(0,'tools'); import mutants; mutants.retarget()"; fi
 for d in seeded/*/; do
 	id=$(basename "$d"); [ -f "$d/meta.json" ] || continue
-	[ -n "${SEEDS_FILTER:-}" ] && ! echo "$id" | grep -Eq "$SEEDS_FILTER" && continue
+	[ -n "${SEEDS_FILTER:-}" ] && ! echo "$id" | grep -Eq -e "$SEEDS_FILTER" && continue
 	prop=$(python3 -c "import json,sys; print(json.load(open('$d/meta.json'))['property'])")
 	git -C "$repo" apply "$PWD/$d/patch.diff" 2>/dev/null || { echo "$id $prop PATCH-DOES-NOT-APPLY"; continue; }
 	start=$(date +%s)
